@@ -566,23 +566,21 @@ Proof. exists [256%N]. split; [reflexivity|]. vm_compute. discriminate. Qed.
 
 (* the one sub-domain where the current decoder is right: a single id whose low byte
    is not zero (stated on the two wire bytes lo hi) *)
+Lemma gather_empty_body F f t l v pre :
+  gather F (S f) t l [] v pre =
+  Ok {| y_tag := t; y_len := l; y_val := v; y_pre := pre; y_last := []; y_next := [] |}.
+Proof.
+  rewrite gather_eq. cbv zeta. rewrite firstn_nil, !skipn_nil.
+  destruct (N.eqb l (N.of_nat F)); reflexivity.
+Qed.
+
 Lemma sequ16_single_id_ok lo hi :
   lo <> 0%N -> tlv8_decode (TSeqInt U16) [lo; hi] = Ok (VIds [(lo + 256 * (hi + 256 * 0))%N]).
 Proof.
   intros Hlo. unfold tlv8_decode, fuel_of. cbn [ty_depth dec].
   assert (E : tlv_array 255 [lo; hi] = ([[lo; hi]], FinOk)).
   { unfold tlv_array. cbn [length]. rewrite arr_f_step by discriminate.
-    cbn [step length]. rewrite gather_eq. cbv zeta.
-    rewrite firstn_nil, skipn_nil.
-    assert (Hstop : (if N.eqb hi (N.of_nat 255) then match skipn 255 (@nil N) with
-              | [] => Ok {| y_tag := lo; y_len := hi; y_val := []; y_pre := []; y_last := []; y_next := [] |}
-              | t' :: r => if N.eqb t' lo then match r with [] => Crash
-                   | l' :: body' => gather 255 0 lo l' body' ([] ++ firstn (N.to_nat l') body') ([] ++ lo :: hi :: firstn 255 [])
-                   end else Ok {| y_tag := lo; y_len := hi; y_val := []; y_pre := []; y_last := []; y_next := [] |} end
-              else Ok {| y_tag := lo; y_len := hi; y_val := []; y_pre := []; y_last := []; y_next := [] |})
-            = Ok {| y_tag := lo; y_len := hi; y_val := []; y_pre := []; y_last := []; y_next := [] |}).
-    { rewrite skipn_nil. destruct (N.eqb hi (N.of_nat 255)); reflexivity. }
-    rewrite Hstop. cbn [y_tag y_pre y_last y_next y_len].
+    cbn [step length]. rewrite gather_empty_body. cbn [y_tag y_pre y_last y_next y_len].
     destruct (N.eqb_spec lo 0); [contradiction|]. reflexivity. }
   rewrite E. reflexivity.
 Qed.
